@@ -8,6 +8,7 @@
 #[allow(dead_code)]
 mod ast;
 mod model;
+mod imports;
 mod resume;
 mod v0host;
 
@@ -1102,6 +1103,8 @@ fn run_engine(cli: &Cli, report: &Report) {
     }
     // ---- layer 4: interrupts answered and resumed; call depth ---------------------------------
     resume::run_resume(report, cli.tier, &mem0, &atoms);
+    // ---- layer 5: import and export declarations ----------------------------------------------
+    imports::run_imports(report);
     // ---- the legacy (v0) interface -------------------------------------------------------------
     v0host::run_v0(report, cli.tier, &mem0);
 }
